@@ -207,7 +207,7 @@ def rule_project(ctx):
     return res.finish(2)
 
 
-rule_memorder = layout.make_rule("R-C18-memorder", "raw memory-order buffers (as_slice_memory_order, into_raw_vec, as_ptr) of record matrices are used by position only behind an is_standard_layout() test", lambda f: f["d"]["krate"] == "linfa_reduction" and "pca" in fn_file(f), "linfa-reduction pca")
+rule_memorder = layout.make_rule("R-C18-memorder", "raw memory-order buffers (as_slice_memory_order, into_raw_vec, as_ptr) of record matrices are used by position only behind an is_standard_layout() test", lambda f: (f["d"]["krate"] == "linfa_reduction" and "pca" in fn_file(f)) or (f["d"]["krate"] == "linfa" and fn_file(f).endswith("lapack_bounds.rs")), "linfa-reduction pca and the linfa::dataset lapack adapters it calls")
 
 def rule_ratio_paths(ctx):
     """explained_variance_ratio is sigma^2 / sum(sigma^2) on every path: a path that returns a constant array (zeros under
